@@ -19,6 +19,8 @@ import types
 
 from .common import Check, REPO
 
+sys.setrecursionlimit(max(sys.getrecursionlimit(), 20000))
+
 # ------------------------------------------------------------------------------------------------
 # adapter (runs inside worker processes; utype is imported from $UTYPE_REPO)
 # ------------------------------------------------------------------------------------------------
@@ -275,26 +277,33 @@ def unfold(v, budget, stack=()):
         j = v["ref"]
         target = stack[len(stack) - 1 - j]
         return unfold(target, budget - 1, stack[:len(stack) - 1 - j])
+    out = []
     if "l" in v:
-        return {"l": [unfold(x, budget, stack + (v,)) for x in v["l"]]}
-    return {"d": [[k, unfold(x, budget, stack + (v,))] for k, x in v["d"]]}
+        for x in v["l"]:
+            out.append(unfold(x, budget, stack + (v,)))
+        return {"l": out}
+    for k, x in v["d"]:
+        out.append([k, unfold(x, budget, stack + (v,))])
+    return {"d": out}
 
 
 def vsize(v):
     if v is None or "t" in v or "ref" in v:
         return 1
-    if "l" in v:
-        return 1 + sum(vsize(x) for x in v["l"])
-    return 1 + sum(vsize(x) for _, x in v["d"])
+    n = 1
+    for x in (v["l"] if "l" in v else [y for _, y in v["d"]]):
+        n += vsize(x)
+    return n
 
 
 def vdepth(v):
     """container nesting depth of the input (an upper bound of its data-class nesting depth)"""
     if v is None or "t" in v or "ref" in v:
         return 0
-    if "l" in v:
-        return 1 + max([vdepth(x) for x in v["l"]] or [0])
-    return 1 + max([vdepth(x) for _, x in v["d"]] or [0])
+    d = 0
+    for x in (v["l"] if "l" in v else [y for _, y in v["d"]]):
+        d = max(d, vdepth(x))
+    return d + 1
 
 
 def dict_nesting(v):
@@ -373,8 +382,17 @@ def decl_ambiguous(classes):
     return any(union_ambiguous(t) for c in classes for _, t in c["fields"])
 
 
-def modelled(classes, t, v, seen=None):
+def modelled(classes, t, v, memo=None):
     """is the (type, value) pairing inside the modelled fragment (see design.d/C18.md)"""
+    memo = {} if memo is None else memo
+    key = (id(t), id(v))
+    if key in memo:
+        return memo[key]
+    memo[key] = r = _modelled(classes, t, v, memo)
+    return r
+
+
+def _modelled(classes, t, v, memo):
     if v is not None and "ref" in v:
         return True
     if t in ("leaf", "none"):
@@ -388,14 +406,20 @@ def modelled(classes, t, v, seen=None):
         if any(not isinstance(k, str) for k in keys) or len(set(keys)) != len(keys):
             return False
         fields = dict((n, ft) for n, ft in classes[t["data"]]["fields"])
-        return all(modelled(classes, fields[k], x) for k, x in v["d"] if k in fields)
+        for k, x in v["d"]:
+            if k in fields and not modelled(classes, fields[k], x, memo):
+                return False
+        return True
     for key in ("list", "tuple"):
         if key in t:
             if v is not None and "l" in v:
-                return all(modelled(classes, t[key], x) for x in v["l"])
+                for x in v["l"]:
+                    if not modelled(classes, t[key], x, memo):
+                        return False
+                return True
             if v is not None and "d" in v and not v["d"]:
                 return True
-            return modelled(classes, t[key], v)
+            return modelled(classes, t[key], v, memo)
     if "dict" in t:
         if v is None or "t" in v:
             return True
@@ -405,8 +429,14 @@ def modelled(classes, t, v, seen=None):
         keys = [k for k, _ in v["d"]]
         if any(type(k) is not want for k in keys):
             return False
-        return all(modelled(classes, t["dict"], x) for _, x in v["d"])
-    return all(modelled(classes, a, v) for a in t["union"])
+        for _, x in v["d"]:
+            if not modelled(classes, t["dict"], x, memo):
+                return False
+        return True
+    for a in t["union"]:
+        if not modelled(classes, a, v, memo):
+            return False
+    return True
 
 
 # ------------------------------------------------------------------------------------------------
@@ -851,12 +881,17 @@ class C18(Check):
                 "value": case["value"], "legacy": False}
         if case.get("cyc"):
             lims = [c.get("opts", {}).get("max_depth") or 0 for c in case["classes"]]
-            line["value"] = unfold(case["value"], (max(lims) + 2) * 6)
+            # one turn of a cycle passes a data-class level (or, read as a plain container, a level of a finite
+            # type): the limited parser cannot follow more than max_depth + 1 (+ type height) turns
+            line["value"] = unfold(case["value"], (max(lims) + 3) * 2)
             line["skip_unl"] = True
         return line
 
     def in_fragment(self, case):
-        return modelled(case["classes"], {"data": case["root"]}, case["value"])
+        v = case["value"]
+        if case.get("cyc"):
+            v = self.model_line(case)["value"]      # the unfolding the model sees
+        return modelled(case["classes"], {"data": case["root"]}, v)
 
     # ---- model vs implementation ----
     @staticmethod
